@@ -99,8 +99,8 @@ PROPS = {
         'targets': ['Corr/Dispatch.vo', 'Proto/Run.vo'],
     },
     'C03': {
-        'level_text': 'Theorems for every conversation state, policy set and text: Send in finished emits nothing new and fails; Send in plaintext under require-encryption emits only the query and queues the text; Send while encrypted emits only error replies or a data message whose payload is encrypted and MACed under the sending key of the current DH pair. Every run, compared with the machine: directed sweep of 10 lifecycle phases x 8 actions x 5 policy sets (incl. protocol-looking texts given to Send, a further session and an error-triggered retransmission at the end) plus random lifecycles; wire-search oracle (raw and base64) for every text whenever encryption is due.',
-        'level_note': 'that AES-CTR ciphertext does not reveal the text is a property of the cipher (measured by the oracle only); release of queued texts only inside data messages is covered by correspondence + oracle.',
+        'level_text': 'Theorems: C03_plaintext_only_from_send_when_allowed - over EVERY history of calls on a new conversation (any input, Send / End / SMP / extra key in any order) a plaintext message leaves only as the direct output of Send(t), carrying that very text, at a moment when OTR is off or the conversation is in plaintext state without require-encryption; everything else that ever leaves (queued texts released later, the message resent on request, replies built while receiving, End / SMP / extra-key output) is a query, an error message or an encoded message (value-following frame calculus over the conversation monad, Proto/NoPlain.v). For every state, policy set and text: Send in finished emits nothing new and fails; Send in plaintext under require-encryption emits only the query and queues the text; Send while encrypted emits only error replies or a data message whose payload is encrypted and MACed under the sending key of the current DH pair. Every run, compared with the machine: directed sweep of 10 lifecycle phases x 8 actions x 5 policy sets (incl. protocol-looking texts given to Send, a further session and an error-triggered retransmission at the end) plus random lifecycles; wire-search oracle (raw and base64) for every text whenever encryption is due.',
+        'level_note': 'that AES-CTR ciphertext does not reveal the text, and that an encoded message is decipherable only with the session secrets, are properties of the cipher / the symbolic idealisation (measured on the real bytes by the wire-search oracle only).',
         'trusted': ['the conversation model is symbolic: DH values are exponent ids, shared secrets unordered pairs, keys (secret, role) terms, a MAC verifies iff it was computed with the same key over the same fields (perfect-cryptography idealisation)', 'internal projections (key ids, list lengths, state names) are read through the verif-tagged hook VerifSnapshot'],
         'assumptions': ['AES-128-CTR hides the plaintext'],
         'targets': ['Corr/Dispatch.vo', 'Proto/Run.vo'],
